@@ -15,11 +15,14 @@
    for a name that designates nothing.  It holds under two side conditions on
    the interface that every valid XSD meets (member names distinct within a
    type: wf_names; type references resolve: wf_refs) and for the lenient
-   reading of two points on which the unchanged code departs from the letter
-   of the text (strict_reading_refuted): a required member of enumeration type
-   is pre-built as a Property {value = None}, and an undeclared prefix raises a
-   bare Exception rather than TypeNotFound.  The defect "create('T.bogus')
-   returns T" is repaired in /repo: create_unknown_raises has no guard for it.
+   reading of the one point on which the unchanged code departs from the letter
+   of the text (known finding C03:enum-member-prebuilt-as-property, witness
+   strict_reading_refuted): a required member of enumeration type is pre-built
+   as a Property {value = None}.  Where no member is of that kind the letter of
+   the text holds too (create_meets_strict_spec_partial).  Two defects are
+   repaired in /repo and therefore not guarded: "create('T.bogus') returns T"
+   and "create('zz:T') raises a bare Exception" (create_unknown_raises,
+   create_undeclared_prefix_raises).
    Strings that are not spellings ("T..x", "T.") are outside the quantifier;
    the model shows they are still accepted (malformed_path_accepted). *)
 From SV Require C01.Marshal.
@@ -31,6 +34,14 @@ Theorem create_meets_spec : forall W sp,
   spec_check W false sp (create W (render sp)) = true.
 Proof. exact create_meets_spec_l. Qed.
 Print Assumptions create_meets_spec.
+
+(* the letter of the text (strict = true: a required member of simple type is
+   None), guarded by the absence of required enumeration-typed members *)
+Theorem create_meets_strict_spec_partial : forall W sp,
+  wf_names W = true -> wf_refs W = true -> no_enum_members W = true -> wf_spelling sp = true ->
+  spec_check W true sp (create W (render sp)) = true.
+Proof. exact create_meets_strict_spec_partial_l. Qed.
+Print Assumptions create_meets_strict_spec_partial.
 
 (* 2. construction alone: unbounded nesting, recursion through any cycle of types *)
 Theorem create_mirrors_type : forall W t,
@@ -46,7 +57,7 @@ Theorem member_object_mirrors_type : forall W,
     In t (w_types W) -> inv hist path -> remaining W hist < fuel ->
     mirrors W false path t
             (PObj cls (iter_items (ordering (all_items W t)) (members W fuel hist t))) = true.
-Proof. exact members_mirror. Qed.
+Proof. exact members_mirror_lenient. Qed.
 Print Assumptions member_object_mirrors_type.
 
 (* the history cut-off, not the fuel, ends the recursion *)
@@ -103,6 +114,14 @@ Theorem create_unknown_raises : forall W sp,
   create W (render sp) = RTypeNotFound.
 Proof. exact create_unknown_raises_l. Qed.
 Print Assumptions create_unknown_raises.
+
+(* an undeclared prefix: TypeNotFound like any unknown name (repaired in /repo) *)
+Theorem create_undeclared_prefix_raises : forall W p n ms,
+  wf_names W = true -> wf_refs W = true -> wf_spelling (mkSp (RPrefixed p n) ms) = true ->
+  resolve_prefix W p = None ->
+  create W (render (mkSp (RPrefixed p n) ms)) = RTypeNotFound.
+Proof. exact create_undeclared_prefix_l. Qed.
+Print Assumptions create_undeclared_prefix_raises.
 
 Theorem create_never_partial : forall W sp v,
   wf_names W = true -> wf_refs W = true -> wf_spelling sp = true ->
@@ -191,20 +210,21 @@ Example spellings_nonvacuous :
   create W_ex (render (mkSp (RPlain s_Color) [])) = ROk (PObj 13 [((14%N, false), PStr 14)]) /\
   create W_ex (render (mkSp (RPlain s_T) [mkM None true s_a1])) = ROk (PObj 18 []) /\
   create W_ex (render (mkSp (RPlain s_T) [mkM None false s_zz])) = RTypeNotFound /\
+  create W_ex (render (mkSp (RPrefixed s_zz s_T) [])) = RTypeNotFound /\
+  designate W_ex (mkSp (RPrefixed s_zz s_T) []) = [DTargets []] /\
   designate W_ex (mkSp (RPlain s_T) [mkM None false s_zz]) = [DTargets []].
 Proof. vm_compute. repeat split; reflexivity. Qed.
 
-(* the letter of the text is NOT met by the faithful model: a required member
-   of enumeration type is a Property {value = None} instead of None, and an
-   undeclared prefix is a bare Exception instead of TypeNotFound *)
+(* the letter of the text is NOT met by the faithful model where a required
+   member has an enumeration type: it is a Property {value = None} instead of
+   None (the guard of create_meets_strict_spec_partial is necessary) *)
 Theorem strict_reading_refuted :
-  exists W sp1 sp2,
-    wf_names W = true /\ wf_refs W = true /\ wf_spelling sp1 = true /\ wf_spelling sp2 = true /\
-    spec_check W true sp1 (create W (render sp1)) = false /\
-    spec_check W true sp2 (create W (render sp2)) = false /\
-    create W (render sp2) = ROther.
+  exists W sp,
+    wf_names W = true /\ wf_refs W = true /\ wf_spelling sp = true /\
+    no_enum_members W = false /\
+    spec_check W true sp (create W (render sp)) = false.
 Proof.
-  exists W_ex, (mkSp (RPlain s_T) []), (mkSp (RPrefixed s_zz s_T) []).
+  exists W_ex, (mkSp (RPlain s_T) []).
   vm_compute. repeat split; reflexivity.
 Qed.
 Print Assumptions strict_reading_refuted.
@@ -227,6 +247,25 @@ Proof.
   rewrite <- H1 in Hr. vm_compute in Hr. discriminate.
 Qed.
 Print Assumptions malformed_path_accepted.
+
+(* the guard of create_meets_strict_spec_partial is satisfiable: T without its
+   enumeration member *)
+Definition W_ex2 : wsdl :=
+  mkWsdl
+    [mkC 10 1 None
+         [PC KSeq false [PE (mkE 15 1 true TBuiltin false false false None);
+                         PE (mkE 11 1 true (TNamed 1 10) false false false None)]]
+         [mkA 18 false (Some 20%N)]]
+    [(1%N, 13%N, [14%N])] [] s_urn [(s_t, s_urn)] [(s_urn, 1%N)] (w_names W_ex).
+
+Example strict_partial_nonvacuous :
+  wf_names W_ex2 = true /\ wf_refs W_ex2 = true /\ no_enum_members W_ex2 = true /\
+  create W_ex2 (render (mkSp (RPrefixed s_t s_T) [])) =
+  ROk (PObj 10 [((15%N, false), PNone);
+                ((11%N, false), PObj 10 [((15%N, false), PNone); ((18%N, true), PStr 20)]);
+                ((18%N, true), PStr 20)]) /\
+  spec_check W_ex2 true (mkSp (RPrefixed s_t s_T) []) (create W_ex2 (render (mkSp (RPrefixed s_t s_T) []))) = true.
+Proof. vm_compute. repeat split; reflexivity. Qed.
 
 (* a typed object nested in a typed object, against the nested dicts *)
 Example object_vs_dict_nonvacuous :
